@@ -11,8 +11,10 @@
    (`crashSched c ..`: nothing at or after op `c` has an effect), every subset of lazy deletes having
    happened, any number of failing ops, failing ops that did or did not reach the disk. -/
 import LdkModel.Proofs.MonPersister
+import LdkModel.Proofs.FsStore
+import LdkModel.Proofs.MonPersisterMulti
 namespace Ldk.C19
-open Ldk Ldk.Kv Ldk.MonP Ldk.Persist
+open Ldk Ldk.Kv Ldk.MonP Ldk.Persist Ldk.Fs
 
 /-! ## 1. the sequential store semantics is a finite map -/
 
@@ -203,5 +205,368 @@ example : let r := runHistory (exCfg 3) okSched "m" [] ⟨0, []⟩ (exEvs.take 7
     r.completed = 8 ∧ r.w.store.names CHANNEL_MONITOR_UPDATE_PERSISTENCE_PRIMARY_NAMESPACE "m" = ["8", "7", "5"] := by decide
 example := window_bound (exCfg 3) okSched "m" [] ⟨0, []⟩ (exEvs.take 7 ++ [.update 6 60 true, .update 7 70 false, .update 8 80 false])
   (by decide) List.nodup_nil (by intro nm h; simp [Store.get] at h) (by decide)
+
+/-! ## 5. the file-level store (lightning-persister fs_store, v1 and v2 layouts) refines the map
+
+   Model/FsStore.lean: a directory is a finite map `location ↦ torn | data v`; every API call is a list of
+   file operations (create tmp, write_all, fsync, ATOMIC rename, unlink, directory fsync) plus the
+   version/lock bookkeeping. `ue` is the `use_empty_ns_dir` flag: `layoutOf false` = FilesystemStore,
+   `layoutOf true` = FilesystemStoreV2; every theorem below is for BOTH (all `ue`). -/
+
+/-- `fs_refines_map` (REFINEMENT). Let the directory `fs0` — holding any number of leftover `*.tmp` /
+    `*.trash` artifacts — represent the abstract store `s0` (`Rel`: each valid key's destination file
+    holds exactly its value, completely written; every other file is an artifact). Then after ANY
+    sequence of sync API calls (valid or invalid keys) on a store (re)started over `fs0`, the directory
+    represents `run s0 ops` — the very `run`/`KvOp.apply` of `store_is_map` and of the persister
+    theorems —, and every answer (values, NotFound, validity errors, listings as duplicate-free sets)
+    is the abstract store's answer. In particular `list` never returns an artifact or a torn entry, and
+    a leftover artifact never shadows or resurrects a key. -/
+theorem fs_refines_map {ν : Type} (ue : Bool) (fs0 : FS ν) (s0 : Store ν) (h0 : Rel ue fs0 s0) (ops : List (KvOp ν)) :
+    Rel ue (runSeq ue (fresh fs0) ops).fs (run s0 ops) ∧
+    ansAllEq (answersSeq ue (fresh fs0) ops) (answers s0 ops) :=
+  rel_runSeq ue ops (quiescent_fresh fs0) h0
+
+/-- ... so `store_is_map` holds for the real layouts: on an empty data directory, in the v1 and in the
+    v2 layout, every valid key's file holds exactly the value of the last completed write that no
+    completed remove followed (`lastWrite` is the history-only specification of `store_is_map`). -/
+theorem fs_store_is_map {ν : Type} (v2 : Bool) (ops : List (KvOp ν)) (k : Key) (hk : validKey k = true) :
+    readKey (layoutOf v2) (runSeq (layoutOf v2) (fresh []) ops).fs k = (lastWrite ops k).map Content.data := by
+  have h0 : Rel (layoutOf v2) ([] : FS ν) ([] : Store ν) :=
+    ⟨List.nodup_nil, fun _ _ => rfl, fun _ _ => rfl, fun p c h _ => by simp [Store.get] at h⟩
+  have := (fs_refines_map (layoutOf v2) [] [] h0 ops).1.get k hk
+  rw [get_run] at this
+  exact this
+
+/-- non-vacuity: v2 layout, a leftover artifact `k.7.tmp` next to key `k`, then overwrite / rejected
+    write / remove: the files, the listing (artifact skipped) and the tmp counter -/
+example : let fs0 : FS Nat := [(("n", "[empty]", "k.7.tmp"), .torn), (("n", "[empty]", "k"), .data 1)]
+    let st := runSeq true (fresh fs0) [.write ("n", "", "k") 2, .write ("n", "", "") 9, .write ("n", "s", "k") 3, .remove ("n", "s", "k") false]
+    readKey true st.fs ("n", "", "k") = some (.data 2) ∧ readKey true st.fs ("n", "s", "k") = none ∧
+    listDir true st.fs "n" "" = ["k"] ∧ st.fs.keys = [("n", "[empty]", "k"), ("n", "[empty]", "k.7.tmp")] ∧
+    st.tmpCounter = 2 ∧ st.locks = [] ∧ st.nextVersion = 4 := by decide
+
+/-- v1 layout: the empty secondary namespace is no directory level -/
+example : (runSeq false (fresh ([] : FS Nat)) [.write ("n", "", "k") 2, .write ("", "", "k") 3]).fs.keys =
+    [("", "", "k"), ("n", "", "k")] := by decide
+
+/-! ## 6. no torn value, at any crash point -/
+
+/-- `crash_never_tears` (NO TORN VALUE). Let `fs0` represent `s0`, run ANY sequence `ops` of API calls
+    to completion, then start ANY call `op` and crash after ANY number `j` of its file operations
+    (`crashFs`: between create-tmp / write_all / fsync / rename / unlink / directory fsync). Then the
+    directory left behind represents EXACTLY the abstract store before `op` or EXACTLY the abstract
+    store after `op` — as a whole, for all keys at once. Hence: a read of any key returns its value
+    before or its value after the interrupted call and never a half-written file; `list` returns only
+    genuine keys (no tmp/trash artifact, each listed key is readable); and (by `fs_refines_map`, whose
+    hypothesis this conclusion is) a store restarted on that directory behaves for EVERY continuation
+    `ops2` like the map holding the before- or the after-state: a leftover artifact never shadows or
+    resurrects a key. `rename` being atomic is the model's assumption (`FOp.rename`). -/
+theorem crash_never_tears {ν : Type} (ue : Bool) (fs0 : FS ν) (s0 : Store ν) (h0 : Rel ue fs0 s0)
+    (ops : List (KvOp ν)) (op : KvOp ν) (j : Nat) :
+    let st := runSeq ue (fresh fs0) ops
+    let fsC := crashFs ue st op j
+    (∃ s, (s = run s0 ops ∨ s = run s0 (ops ++ [op])) ∧ Rel ue fsC s ∧
+       ∀ ops2, Rel ue (runSeq ue (fresh fsC) ops2).fs (run s ops2) ∧
+               ansAllEq (answersSeq ue (fresh fsC) ops2) (answers s ops2)) ∧
+    (∀ k, validKey k = true →
+       readKey ue fsC k ≠ some .torn ∧
+       (readKey ue fsC k = readKey ue st.fs k ∨ readKey ue fsC k = readKey ue (step ue st op).1.fs k)) ∧
+    (∀ p sn n, validStr p = true → validStr sn = true → n ∈ listDir ue fsC p sn →
+       isArtifact n = false ∧ ∃ v, readKey ue fsC (p, sn, n) = some (.data v)) := by
+  intro st fsC
+  have hq : Quiescent st := quiescent_runSeq ue ops (quiescent_fresh fs0)
+  have hrel : Rel ue st.fs (run s0 ops) := (fs_refines_map ue fs0 s0 h0 ops).1
+  have hrel' : Rel ue (step ue st op).1.fs (run s0 (ops ++ [op])) := by
+    rw [run_append]; exact rel_step ue hq hrel op
+  have hwf : fsC.WF := wf_crashFs ue hrel.wf op j
+  have hcases := crash_prefix ue hq op j
+  have hex : ∃ s, (s = run s0 ops ∨ s = run s0 (ops ++ [op])) ∧ Rel ue fsC s := by
+    rcases hcases with h | h
+    · exact ⟨_, Or.inl rfl, rel_congr hrel hwf h⟩
+    · exact ⟨_, Or.inr rfl, rel_congr hrel' hwf h⟩
+  obtain ⟨s, hs, hR⟩ := hex
+  refine ⟨⟨s, hs, hR, fun ops2 => fs_refines_map ue fsC s hR ops2⟩, ?_, ?_⟩
+  · intro k hk
+    refine ⟨?_, ?_⟩
+    · unfold readKey; rw [hR.get k hk]; cases s.get k <;> simp
+    · rcases hcases with h | h
+      · left; exact h _ (dest_not_artifact hk)
+      · right; exact h _ (dest_not_artifact hk)
+  · intro p sn n hp hsn hn
+    obtain ⟨_, _, h3⟩ := listDir_rel hR hp hsn
+    have hmem := (h3 n).mp hn
+    rw [Store.mem_names_iff] at hmem
+    have hk : validKey (p, sn, n) = true := by
+      cases hv : validKey (p, sn, n) with
+      | true => rfl
+      | false => rw [hR.inval _ hv] at hmem; exact Bool.noConfusion hmem
+    refine ⟨isArtifact_valid (validKey_strs hk).2.2, ?_⟩
+    unfold readKey; rw [hR.get _ hk]
+    cases hg : s.get (p, sn, n) with
+    | none => rw [hg] at hmem; exact Bool.noConfusion hmem
+    | some v => exact ⟨v, rfl⟩
+
+/-- non-vacuity: overwrite of `k` (old value 1) interrupted after 2 file operations: the tmp file is
+    there, fully written, the key still reads 1; after 4 (the rename) it reads 2 and no tmp is left;
+    after 1 the tmp file is torn — and is not listed -/
+example : let st := runSeq true (fresh ([] : FS Nat)) [.write ("n", "", "k") 1]
+    (crashFs true st (.write ("n", "", "k") 2) 2) = [(("n", "[empty]", "k.1.tmp"), .data 2), (("n", "[empty]", "k"), .data 1)] ∧
+    (crashFs true st (.write ("n", "", "k") 2) 4) = [(("n", "[empty]", "k"), .data 2)] ∧
+    (crashFs true st (.write ("n", "", "k") 2) 1).get ("n", "[empty]", "k.1.tmp") = some .torn ∧
+    listDir true (crashFs true st (.write ("n", "", "k") 2) 1) "n" "" = ["k"] := by decide
+
+/-! ## 7. order under concurrency -/
+
+/-- `async_last_issued_wins` (ORDER UNDER CONCURRENCY). Issue ANY list `ops` of async API calls (write /
+    remove / read / list, any keys, valid or not) on a store started over any directory: each valid
+    write/remove takes its version and its lock reference at ISSUE time (`issueAll`, mirrors
+    `get_new_version_and_lock_ref` being called before the `async move` block). Let their bodies then
+    run to completion in ANY order `π` (any permutation of the issued operations — async tasks
+    complete in any order). Then for EVERY valid key the destination file finally holds the result of
+    the LAST ISSUED operation on that key (its value for a write, nothing for a remove; the initial
+    contents if no operation was issued on it) — whatever `π` was. All keys at once: operations on
+    different keys commute. The bodies are atomic in this model (the real ones hold the per-path lock
+    for the version check + rename/unlink, and touch only their own tmp file before that). -/
+theorem async_last_issued_wins {ν : Type} (ue : Bool) (fs0 : FS ν) (ops : List (KvOp ν))
+    (π : List (Pending ν)) (hπ : π.Perm (issueAll ue (fresh fs0) ops).2) (k : Key) (hk : validKey k = true) :
+    readKey ue (execAll (issueAll ue (fresh fs0) ops).1 π).fs k =
+      (match (onDest (destPath ue k) (issueAll ue (fresh fs0) ops).2).getLast? with
+       | none => readKey ue fs0 k
+       | some x => x.result) ∧
+    (lockOf (execAll (issueAll ue (fresh fs0) ops).1 π) (destPath ue k)).refs = 0 := by
+  obtain ⟨h1, _, h3, h4, h5⟩ := issueAll_spec ue ops (fresh fs0)
+  have hl0 : ∀ d, lockOf (fresh fs0) d = ⟨0, 0⟩ := fun d => by simp [lockOf, fresh, Store.get]
+  have hperm : ∀ d, (onDest d π).Perm (onDest d (issueAll ue (fresh fs0) ops).2) := fun d => hπ.filter _
+  have hlocks : LocksOk (issueAll ue (fresh fs0) ops).1 π := by
+    intro d; rw [h3 d, hl0 d, (hperm d).length_eq]; simp
+  obtain ⟨hget, hrefs⟩ := execAll_reg π _ hlocks (destPath ue k) (dest_not_artifact hk)
+  refine ⟨?_, hrefs⟩
+  unfold readKey
+  rw [hget, h3, hl0, h1]
+  simp only
+  cases hlast : (onDest (destPath ue k) (issueAll ue (fresh fs0) ops).2).getLast? with
+  | none =>
+    have hnil : onDest (destPath ue k) (issueAll ue (fresh fs0) ops).2 = [] := List.getLast?_eq_none_iff.mp hlast
+    have := hperm (destPath ue k)
+    rw [hnil] at this
+    rw [List.Perm.eq_nil this]; rfl
+  | some x =>
+    obtain ⟨pre, hpre⟩ := List.getLast?_eq_some_iff.mp hlast
+    have hpw : (onDest (destPath ue k) (issueAll ue (fresh fs0) ops).2).Pairwise (fun a b => a.version < b.version) :=
+      List.Pairwise.sublist List.filter_sublist h5
+    rw [hpre, List.pairwise_append] at hpw
+    have hmemP : ∀ y, y ∈ onDest (destPath ue k) π → y ∈ pre ∨ y = x := by
+      intro y hy
+      have := (hperm (destPath ue k)).mem_iff.mp hy
+      rw [hpre] at this
+      simpa using this
+    have hx : x ∈ onDest (destPath ue k) π := by
+      apply (hperm (destPath ue k)).mem_iff.mpr; rw [hpre]; simp
+    have hxP : x ∈ (issueAll ue (fresh fs0) ops).2 := by
+      have : x ∈ onDest (destPath ue k) (issueAll ue (fresh fs0) ops).2 := by rw [hpre]; simp
+      exact (List.mem_filter.mp this).1
+    have hpos : 0 < x.version := by
+      have := (h4 x hxP).1
+      have h1v : (fresh fs0).nextVersion = 1 := rfl
+      omega
+    rw [foldl_reg_max (onDest (destPath ue k) π) 0 _ x hx ?_ ?_ hpos]
+    · intro y hy
+      rcases hmemP y hy with h | h
+      · exact Nat.le_of_lt (hpw.2.2 y h x (by simp))
+      · rw [h]; exact Nat.le_refl _
+    · intro y hy hv
+      rcases hmemP y hy with h | h
+      · have := hpw.2.2 y h x (by simp); omega
+      · exact h
+
+/-- non-vacuity: three operations on `k` (write 1, remove, write 3) and one on `k2`, bodies completing
+    in the order 3rd, 4th, 1st, 2nd: `k` ends with 3 (the two older bodies are skipped as stale and
+    the tmp file of the stale write is removed), `k2` with 7, the lock table is empty again -/
+example : let t := issueAll true (fresh ([] : FS Nat)) [.write ("n", "", "k") 1, .remove ("n", "", "k") true, .write ("n", "", "k") 3, .write ("n", "", "k2") 7]
+    let fin := execAll t.1 (t.2.drop 2 ++ t.2.take 2)
+    t.2.map (·.version) = [1, 2, 3, 4] ∧ (t.1.locks.get ("n", "[empty]", "k")) = some ⟨0, 3⟩ ∧
+    fin.fs = [(("n", "[empty]", "k2"), .data 7), (("n", "[empty]", "k"), .data 3)] ∧ fin.locks = [] ∧ fin.tmpCounter = 3 := by decide
+
+/-! ## 8. several monitors, archiving, reading everything back -/
+
+/-- `monitor_isolation`. Take ANY interleaving `l1 ++ l2` of persister calls (`persist_new_channel`,
+    `update_persisted_channel` with or without an update, `archive_persisted_channel`, the per-monitor
+    stale clean-up) on ANY monitors under ANY fault schedule. If no call of `l2` is on monitor `b`, then
+    `l2` changed nothing of what `b` owns and nothing of what recovery returns for `b`: the stored
+    monitor, the archive copy, every update file, the listing of `b`'s update namespace (as a list),
+    and `recover cfg · b` (= `maybe_read_channel_monitor_with_updates` on a healthy store, see
+    `read_all_is_map_of_recover`) are the same after `l1 ++ l2` as after `l1`. So in every interleaving
+    the recoverable state of a monitor changes only at its own calls. -/
+theorem monitor_isolation {St Upd : Type} (cfg : Cfg St Upd) (sc : Sched) (w : World St Upd)
+    (l1 l2 : List (String × Call St Upd)) (b : String) (h : ∀ c ∈ l2, c.1 ≠ b) :
+    let s := (runCalls cfg sc w l1).store
+    let s' := (runCalls cfg sc w (l1 ++ l2)).store
+    recover cfg s' b = recover cfg s b ∧ s'.get (monKey b) = s.get (monKey b) ∧ s'.get (archKey b) = s.get (archKey b) ∧
+    (∀ id, s'.get (updKey b id) = s.get (updKey b id)) ∧
+    s'.names CHANNEL_MONITOR_UPDATE_PERSISTENCE_PRIMARY_NAMESPACE b = s.names CHANNEL_MONITOR_UPDATE_PERSISTENCE_PRIMARY_NAMESPACE b := by
+  intro s s'
+  have aux : ∀ (l : List (String × Call St Upd)) (w0 : World St Upd), (∀ c ∈ l, c.1 ≠ b) →
+      recover cfg (runCalls cfg sc w0 l).store b = recover cfg w0.store b ∧
+      (runCalls cfg sc w0 l).store.get (monKey b) = w0.store.get (monKey b) ∧
+      (runCalls cfg sc w0 l).store.get (archKey b) = w0.store.get (archKey b) ∧
+      (∀ id, (runCalls cfg sc w0 l).store.get (updKey b id) = w0.store.get (updKey b id)) ∧
+      (runCalls cfg sc w0 l).store.names UPD b = w0.store.names UPD b := by
+    intro l
+    induction l with
+    | nil => intro w0 _; exact ⟨rfl, rfl, rfl, fun _ => rfl, rfl⟩
+    | cons c r ih =>
+      intro w0 hc
+      obtain ⟨a1, a2, a3, a4, a5⟩ := ih (applyCall cfg sc w0 c) (fun c' hc' => hc c' (List.mem_cons_of_mem _ hc'))
+      obtain ⟨b1, b2, b3, b4, b5⟩ := frame_other (name := c.1) (b := b) (fun h2 => hc c (List.mem_cons_self ..) h2.symm) (frame_applyCall cfg sc w0 c) cfg
+      show recover cfg (runCalls cfg sc (applyCall cfg sc w0 c) r).store b = _ ∧ _
+      exact ⟨a1.trans b1, a2.trans b2, a3.trans b3, fun id => (a4 id).trans (b4 id), a5.trans b5⟩
+  have := aux l2 (runCalls cfg sc w l1) h
+  rw [← runCalls_append] at this
+  exact this
+
+/-- non-vacuity: monitor "b" with update file 1; then "a" is created, updated past a consolidation and
+    a third monitor "c" appears ("a"'s update file 1 was written and cleaned up again): the theorem applies and "b"'s files are as before -/
+def exL1 : List (String × Call (List Nat) Nat) := [("b", .persistNew ⟨0, []⟩), ("b", .updatePersisted (some (1, 7)) ⟨1, [7]⟩)]
+def exL2 : List (String × Call (List Nat) Nat) := [("a", .persistNew ⟨0, []⟩), ("a", .updatePersisted (some (1, 5)) ⟨1, [5]⟩),
+  ("a", .updatePersisted (some (2, 6)) ⟨2, [5, 6]⟩), ("c", .persistNew ⟨9, []⟩)]
+example : (runCalls (exCfg 2) okSched { store := [] } (exL1 ++ exL2)).store.keys =
+      [("monitors", "", "c"), ("monitors", "", "a"), ("monitor_updates", "b", "1"), ("monitors", "", "b")] ∧
+    (runCalls (exCfg 2) okSched { store := [] } exL1).store.keys = [("monitor_updates", "b", "1"), ("monitors", "", "b")] := by decide
+example := monitor_isolation (exCfg 2) okSched { store := [] } exL1 exL2 "b" (by decide)
+
+/-- `archive_correct`. For every fault schedule, `archive_persisted_channel(name)` changes at most the
+    archive key and the live monitor key of `name`, and
+    * the archive key is either untouched or holds (without sentinel) EXACTLY the monitor that
+      `read_channel_monitor_with_updates` returns at that moment — the stored monitor WITH its pending
+      updates applied (by `persister_recovers` that is the in-memory monitor), not the bare stored one;
+    * the live monitor key is removed ONLY IF the archive write took effect: whenever it is gone, the
+      archive key holds that monitor.
+    Which read the function uses and that a failed archive write returns before the removal are
+    TRANSLATED from persist.rs (`archiveAppliesUpdates`, `archiveRemoveAfterWriteOk`): if the source
+    archives the bare stored monitor, or removes the live key regardless, this theorem no longer compiles. -/
+theorem archive_correct {St Upd : Type} (cfg : Cfg St Upd) (sc : Sched) (w : World St Upd) (name : String) :
+    (∀ k, k ≠ archKey name → k ≠ monKey name → (archive cfg sc w name).store.get k = w.store.get k) ∧
+    ((archive cfg sc w name).store.get (archKey name) = w.store.get (archKey name) ∨
+      ∃ m, (readWithUpdates cfg sc w name).2 = .ok m ∧ (archive cfg sc w name).store.get (archKey name) = some (.mon false name m)) ∧
+    ((archive cfg sc w name).store.get (monKey name) = w.store.get (monKey name) ∨
+      ((archive cfg sc w name).store.get (monKey name) = none ∧
+       ∃ m, (readWithUpdates cfg sc w name).2 = .ok m ∧ (archive cfg sc w name).store.get (archKey name) = some (.mon false name m))) := by
+  have hread : archiveRead cfg sc w name = readWithUpdates cfg sc w name := rfl
+  have hafter : archiveRemoveAfterWriteOk = true := rfl
+  have hst := readWithUpdates_store cfg sc w name
+  have ham : archKey name ≠ monKey name := archKey_ne_monKey name name
+  unfold archive
+  simp only [hread, hafter, Bool.not_true, Bool.or_false]
+  cases hres : (readWithUpdates cfg sc w name).2 with
+  | error e => simp [hst]
+  | ok m =>
+    simp only
+    cases hb : (kWrite sc (readWithUpdates cfg sc w name).1 (archKey name) (.mon false name m)).2 with
+    | false =>
+      simp only [Bool.false_eq_true, if_false]
+      rcases kWrite_cases sc (readWithUpdates cfg sc w name).1 (archKey name) (.mon false name m) with h | ⟨h, _⟩
+      · rw [h, hst]
+        refine ⟨fun k h1 _ => Store.get_put_ne _ _ h1, Or.inr ⟨m, rfl, Store.get_put_same _ _ _⟩, Or.inl (Store.get_put_ne _ _ ham.symm)⟩
+      · rw [h, hst]; exact ⟨fun _ _ _ => rfl, Or.inl rfl, Or.inl rfl⟩
+    | true =>
+      simp only [if_true]
+      have hput := kWrite_ok_store hb
+      have hrm : ∀ (w1 : World St Upd), (kRemove sc w1 (monKey name) archiveRemoveLazy).1.store = w1.store.del (monKey name) ∨
+          (kRemove sc w1 (monKey name) archiveRemoveLazy).1.store = w1.store := by
+        intro w1
+        simp only [kRemove]
+        by_cases h : (if archiveRemoveLazy = true then sc.eff w1.n else sc.ok w1.n || sc.eff w1.n) = true
+        · left; simp [h]
+        · right; simp [h]
+      rcases hrm (kWrite sc (readWithUpdates cfg sc w name).1 (archKey name) (.mon false name m)).1 with h | h
+      · rw [h, hput, hst]
+        have harch : ((w.store.put (archKey name) (.mon false name m)).del (monKey name)).get (archKey name) = some (.mon false name m) := by
+          rw [Store.get_del_ne _ ham, Store.get_put_same]
+        refine ⟨fun k h1 h2 => by rw [Store.get_del_ne _ h2, Store.get_put_ne _ _ h1], Or.inr ⟨m, rfl, harch⟩,
+          Or.inr ⟨Store.get_del_same _ _, m, rfl, harch⟩⟩
+      · rw [h, hput, hst]
+        refine ⟨fun k h1 _ => Store.get_put_ne _ _ h1, Or.inr ⟨m, rfl, Store.get_put_same _ _ _⟩, Or.inl (Store.get_put_ne _ _ ham.symm)⟩
+
+/-- `archive_holds_memory_monitor`: `persister_recovers` and `archive_correct` together. After ANY
+    history under ANY fault schedule (hypotheses of `persister_recovers`), archiving on a store that
+    answers every operation leaves in the archive namespace EXACTLY the in-memory monitor as of an
+    update at or after the last one reported Completed — pending update files included —, and the
+    live monitor key is gone. -/
+theorem archive_holds_memory_monitor {St Upd : Type} (cfg : Cfg St Upd) (sc : Sched) (name : String)
+    (s0 : Store (PVal St Upd)) (m0 : Mon St) (evs : List (Ev Upd))
+    (hname : cfg.nameOk name = true) (hid : m0.id ≤ LEGACY_CLOSED_CHANNEL_UPDATE_ID) (hwf : s0.WF)
+    (hfresh : ∀ nm, (s0.get (CHANNEL_MONITOR_UPDATE_PERSISTENCE_PRIMARY_NAMESPACE, name, nm)).isSome = true →
+        ∃ id, nm = Nat.repr id ∧ id ≤ m0.id)
+    (rsc : Sched) (hr : ∀ i, rsc.ok i = true) (he : ∀ i, rsc.eff i = true) (w' : World St Upd)
+    (hw' : w'.store = (runHistory cfg sc name s0 m0 evs).w.store)
+    (hstarted : (runHistory cfg sc name s0 m0 evs).started = true) :
+    ∃ n, (runHistory cfg sc name s0 m0 evs).completed ≤ n ∧ n ≤ (runHistory cfg sc name s0 m0 evs).applied.length ∧
+      (archive cfg rsc w' name).store.get (archKey name) =
+        some (.mon false name (snapAt cfg m0 (runHistory cfg sc name s0 m0 evs).applied n)) ∧
+      (archive cfg rsc w' name).store.get (monKey name) = none := by
+  obtain ⟨n, h1, h2, h3, _⟩ := persister_recovers cfg sc name s0 m0 evs hname hid hwf hfresh rsc hr w' hw' hstarted
+  refine ⟨n, h1, h2, ?_⟩
+  obtain ⟨_, hA, hM⟩ := archive_correct cfg rsc w' name
+  have hread : archiveRead cfg rsc w' name = readWithUpdates cfg rsc w' name := rfl
+  have hlazy : archiveRemoveLazy = true := rfl
+  have hgone : (archive cfg rsc w' name).store.get (monKey name) = none := by
+    unfold archive
+    simp only [hread, h3, kWrite, hr, Bool.true_or, if_true, kRemove, hlazy, he]
+    exact Store.get_del_same _ _
+  rcases hM with hM | ⟨_, m, hm, hA'⟩
+  · -- the live key cannot be unchanged: it was there (recovery read it) and is gone now
+    exfalso
+    rw [hgone] at hM
+    have : (readWithUpdates cfg rsc w' name).2 = .error .io := by
+      rw [readWithUpdates_ok cfg rsc hr]
+      unfold recover recoverPure
+      simp [hname, ← hM]
+    rw [h3] at this; cases this
+  · rw [h3] at hm
+    injection hm with hm
+    rw [hm]
+    exact ⟨hA', hgone⟩
+
+/-- non-vacuity: the run of section 2 (crash schedule irrelevant here: healthy run, maximum_pending_updates
+    5, the second update persisted as a full monitor, updates 3 and 4 pending as files): the archive
+    holds the monitor at id 4 with all four payloads -/
+example : let evs : List (Ev Nat) := [.update 1 10 false, .update 2 20 true, .update 3 30 false, .update 4 40 false]
+    let r := runHistory (exCfg 5) okSched "m" [] ⟨0, []⟩ evs
+    r.completed = 4 ∧ r.applied.length = 4 ∧ (snapAt (exCfg 5) ⟨0, []⟩ r.applied 4).st = [10, 20, 30, 40] ∧
+    r.w.store.keys = [("monitor_updates", "m", "4"), ("monitor_updates", "m", "3"), ("monitors", "", "m"), ("monitor_updates", "m", "1")] := by decide
+example := archive_holds_memory_monitor (exCfg 5) okSched "m" [] ⟨0, []⟩ [.update 1 10 false, .update 2 20 true, .update 3 30 false, .update 4 40 false]
+  rfl (by decide) List.nodup_nil (by intro nm h; simp [Store.get] at h) okSched (fun _ => rfl) (fun _ => rfl) { store := _ } rfl (by decide)
+
+/-- `read_all_is_map_of_recover`. On a store that answers every operation, at any point of its life,
+    `maybe_read_channel_monitor_with_updates(name)` is the pure function `recover` of the store
+    contents, and `read_all_channel_monitors_with_updates` is `recover` mapped over the listing of the
+    monitor namespace: all results in listing order, or the first error in that order (`collect`).
+    Together with `persister_recovers` (each `recover` is the in-memory monitor) and
+    `monitor_isolation` (each is independent of the other monitors' calls): restart recovers EVERY
+    monitor exactly. -/
+theorem read_all_is_map_of_recover {St Upd : Type} (cfg : Cfg St Upd) (sc : Sched) (hok : ∀ i, sc.ok i = true)
+    (w : World St Upd) :
+    (readAll cfg sc w).2 =
+      collect ((w.store.names CHANNEL_MONITOR_PERSISTENCE_PRIMARY_NAMESPACE CHANNEL_MONITOR_PERSISTENCE_SECONDARY_NAMESPACE).map
+        (fun nm => (nm, recover cfg w.store nm))) ∧
+    (∀ name, (readWithUpdates cfg sc w name).2 = recover cfg w.store name) ∧
+    (readAll cfg sc w).1.store = w.store := by
+  refine ⟨?_, fun name => readWithUpdates_ok cfg sc hok w name, ?_⟩
+  · unfold readAll
+    have h2 : (kList sc w CHANNEL_MONITOR_PERSISTENCE_PRIMARY_NAMESPACE CHANNEL_MONITOR_PERSISTENCE_SECONDARY_NAMESPACE).2 =
+        some (w.store.names CHANNEL_MONITOR_PERSISTENCE_PRIMARY_NAMESPACE CHANNEL_MONITOR_PERSISTENCE_SECONDARY_NAMESPACE) := by
+      simp [kList, hok]
+    simp only [h2]
+    exact (readAllLoop_ok cfg sc hok _ _).1
+  · unfold readAll
+    simp only
+    split
+    · rfl
+    · rw [(readAllLoop_ok cfg sc hok _ _).2]; rfl
+
+/-- non-vacuity: on the store of the isolation example (three monitors) -/
+example := read_all_is_map_of_recover (exCfg 2) okSched (fun _ => rfl) (runCalls (exCfg 2) okSched { store := [] } (exL1 ++ exL2))
+example : (runCalls (exCfg 2) okSched { store := [] } (exL1 ++ exL2)).store.names
+    CHANNEL_MONITOR_PERSISTENCE_PRIMARY_NAMESPACE CHANNEL_MONITOR_PERSISTENCE_SECONDARY_NAMESPACE = ["c", "a", "b"] := by decide
 
 end Ldk.C19
